@@ -24,6 +24,18 @@ def fs(v):
     return '%11.5e' % v
 
 
+def perturb_spec(spec, seed):
+    """the same solution after re-processing: same stations, layout and covariance, other estimates
+    (fixed-width fields: the file keeps its size to the byte)"""
+    import copy
+    r = random.Random(seed)
+    out = copy.deepcopy(spec)
+    for st in out['stations']:
+        st['est'] = [fe(float(v) + r.choice([-1, 1]) * r.uniform(1e-4, 5e-2) * (1.0 if k < 3 else 1e-2))
+                     for k, v in enumerate(st['est'])]
+    return out
+
+
 # ---------------------------------------------------------------------------
 # spec -> solution model
 # ---------------------------------------------------------------------------
